@@ -172,6 +172,12 @@ def make_op(rng, tasks, wbss, facades):
         Op(f'{owner_name(w)}.remove_all(id={u.id!r})', lambda: w.remove_all(id=u.id), [], ('wbs-remove-all', w, u.id)),
         Op(f'{tn(t)}.children.remove_all(id={u.id!r})', lambda: t.children.remove_all(id=u.id), [t], ('list-remove-all', t, u.id)),
     ]
+    ckw = {}
+    if rng.random() < .6: ckw['parent'] = u
+    if rng.random() < .4: ckw['children'] = L
+    if rng.random() < .4: ckw['predecessors'] = rng.choice([v, L])
+    if rng.random() < .3: ckw['successors'] = rng.choice([t, L])
+    cand.append(Op(f'Task({u.id!r}, ' + ', '.join(f'{k}={tn(x)}' for k, x in ckw.items()) + ')', lambda: Task(u.id, **ckw), [], ('construct',)))
     if facades:
         k = rng.randrange(len(facades)); f, owner = facades[k]
         fo = f'facade{k}(of {owner_name(owner)})'
@@ -209,7 +215,8 @@ def check_effect(op, before, after, ret, allt):
                 if par1(x) is not None: bad.append(('C16 task left out of the assignment keeps its parent', f'{x.id}'))
     if kind == 'assign-children':
         _, o, L = e; want = dedupe(L)
-        if not same(ch1(o), want): bad.append(('C16 children/roots assignment: list is not the given tasks in the given order', f'{[x.id for x in ch1(o)]} vs {[x.id for x in want]}'))
+        want_last = list(reversed(dedupe(list(reversed(L)))))       # with repeated elements "the given order" is met by either occurrence
+        if not same(ch1(o), want) and not same(ch1(o), want_last): bad.append(('C16 children/roots assignment: list is not the given tasks in the given order', f'{[x.id for x in ch1(o)]} vs {[x.id for x in want]}'))
         released_ok(ch0(o), want, o); edited = [o] + [par0(x) for x in want if par0(x) is not None]; moved = want + [x for x in ch0(o)]
     elif kind in ('append-child', 'append-children'):
         o = e[1]; xs = [e[2]] if kind == 'append-child' else e[2]
@@ -287,7 +294,10 @@ def check_effect(op, before, after, ret, allt):
         if ret is not was: bad.append(('C16 link remove: return value does not tell membership', ''))
         if isin(y, after[id(x)][mine]) or isin(x, after[id(y)][mirror]): bad.append(('C16 link remove: link still present on one side', ''))
         if not same(after[id(x)][mine], [z for z in before[id(x)][mine] if z is not y]): bad.append(('C16 link remove: other links changed', ''))
-        links_of = [x, y]
+        links_of = [x, y] + list(before[id(x)][mine])          # members of the edited list may be re-mirrored (same set)
+        for z in before[id(x)][mine]:
+            if z is not y and (sorted(map(id, before[id(z)][2])) != sorted(map(id, after[id(z)][2])) or sorted(map(id, before[id(z)][3])) != sorted(map(id, after[id(z)][3]))):
+                bad.append(('C16 link remove: links of another member of the list changed', f'{z.id}'))
     elif kind in ('wbs-remove', 'wbs-remove-all', 'list-remove-all'):
         if kind == 'wbs-remove':
             _, w, x = e; root = w._root()
@@ -324,7 +334,8 @@ def check_effect(op, before, after, ret, allt):
             if not same(b[2], a[2]) or not same(b[3], a[3]): bad.append(('C16 dependency lists changed by a call that does not edit them', f'task {t.id}'))
     # a re-parented task takes its subtree along
     for x in moved:
-        if not same(before[id(x)][1], after[id(x)][1]) and kind not in ('assign-children',): bad.append(('C16 moved task lost or changed its own children', f'{x.id}'))
+        keep = lambda l: [y for y in l if not isin(y, moved)]       # a child that is itself named in the call may leave
+        if not same(keep(before[id(x)][1]), keep(after[id(x)][1])) and kind not in ('assign-children',): bad.append(('C16 moved task lost or changed its own children', f'{x.id}'))
     return bad
 
 
@@ -364,7 +375,7 @@ def walk(seed, index, props, steps=12, n=None, verbose=False):
             found += check_inv(tasks, wbss)
         except RecursionError:
             found.append(('C01 task is its own ancestor', 'oracle recursion'))
-        if outcome == 'ok' and not found and 'C16' in props:
+        if outcome == 'ok' and not found and 'C16' in props and op.effect[0] != 'construct':
             found += check_effect(op, before, after, ret, allt)
         found = [f for f in found if f[0][:3] in props]
         if found:
